@@ -345,7 +345,14 @@ def run(model, tier):
         'refer to the same modulus. That radstrn is d(displ)/dr (two separately coded closed forms) is not decided.')
     res.rule_text = 'instances: dimension constraints, field identities, 15 blocks x (definitions, 4 identities, check pairing)'
     res.trusted_base = ['CPython ast', 'sympy polynomial arithmetic (cancel/expand)', 'NF engine']
-    blake_dims(model, res)
     hooke(model, res)
     moduli_blocks(model, res)
+    try:
+        blake_dims(model, res)
+    except AnalysisError as e:
+        if not res.findings:
+            raise
+        # the fields are already reported as not following from the instance's moduli; the
+        # dimension pass then has nothing to anchor on
+        res.notes.append('dimension pass skipped: %s' % e)
     return res
